@@ -74,6 +74,8 @@ def make_pairs(ctx, n_types, depth):
     must = [("darr", ("uint", 256), 2), ("darr", ("tuple", (("int", 256), ("bytesM", 32))), 2),
             # dynamic tuples reached through an offset (their static footprint check is the only guard for the head)
             ("darr", ("tuple", (("uint", 256), ("bytes", 3))), 2), ("tuple", (("tuple", (("uint", 256), ("bytes", 3))), ("uint", 8))),
+            # nested dynamic element types (element head words are offsets: the no-wrap guards)
+            ("darr", ("bytes", 32), 2), ("darr", ("darr", ("uint", 256), 2), 2),
             # static aggregates of full-width words (needs_clamp false: only the size check guards returndata)
             ("sarr", ("uint", 256), 3), ("tuple", (("uint", 256), ("sarr", ("uint", 256), 2))),
             ("sarr", ("sarr", ("bytesM", 32), 1), 3), ("uint", 256)]
@@ -293,9 +295,11 @@ def run(ctx):
     exprs, corr, agree_exprs, nt_exprs, kw_exprs, kw_corr, retd_exprs = [], [], [], [], [], [], []
     retx_exprs, ret_corr, xvs = [], [], []
 
-    def used(kind, j):
-        # (truncations/extensions come first in the corruption list: all of the first 24 go to every entry point)
-        u = {"mem": j % 2 == 0 or j < 24, "ret": j % 5 == 0 or j < 24, "ctor": j % 7 == 0 or j < 3}
+    def used(kind, j, fn=None):
+        # (truncations/extensions come first in the corruption list: all of the first 24 go to every entry point;
+        # directed near-2^256 offsets (fn.prio) go to every memory / returndata entry point)
+        pr = getattr(fn, "prio", False)
+        u = {"mem": j % 2 == 0 or j < 24 or pr, "ret": j % 5 == 0 or j < 24 or pr, "ctor": j % 7 == 0 or j < 3}
         return (u["mem"] or u["ret"] or u["ctor"]) if kind == "pay" else u[kind]
 
     for (t, v), base in zip(flat, bases):
@@ -305,7 +309,7 @@ def run(ctx):
         pre = f"let t := {ct} in let base := enc t (VList [{A.coq_val(t, v)}]) in "
 
         def lst(kind=None):
-            return "[" + "; ".join(c for j, (c, _) in enumerate(cs) if kind is None or used(kind, j)) + "]"
+            return "[" + "; ".join(c for j, (c, f_) in enumerate(cs) if kind is None or used(kind, j, f_)) + "]"
         has_len = t[0] in ("bytes", "string", "darr")
         # the REAL selectors: an offset word in [2^256-4, 2^256-1] wraps into the selector bytes
         zs = lambda name, tys: "[" + ";".join(str(x) for x in selector(sig(name, tys))) + "]"   # noqa
@@ -335,6 +339,7 @@ def run(ctx):
         for wi in sorted(set([0, min(1, nwb0 - 1), nwb0 - 1])):
             for x in (len(base), max(len(base) - 32, 0), 2 ** 256 - 32, 32, 0, 64):
                 rcs.append((f"CW {wi} {hex(x)}", lambda b, wi=wi, x=x: b[:32 * wi] + x.to_bytes(32, "big") + b[32 * wi + 32:]))
+        rcs += [c for c in cs if getattr(c[1], "prio", False) and c[0] not in {x[0] for x in rcs}]
         ret_corr.append(rcs)
         rcl = "[" + "; ".join(c for c, _ in rcs) + "]"
         retx_exprs.append(pre + f"join (expect_ret t base {rcl})")
@@ -403,14 +408,14 @@ def run(ctx):
                 if has_len:
                     ins.append(("len", data))
                     ms.append(("len", cterm, e_len[j], data))
-                lenient = next(e_pay) if used("pay", j) else None
-                if used("mem", j):
+                lenient = next(e_pay) if used("pay", j, fn) else None
+                if used("mem", j, fn):
                     ins.append(("mem", data))
                     ms.append(("mem", cterm, next(e_mem) + "|" + lenient, data))
                     if e_nt is not None:
                         ins.append(("memnt", data))
                         ms.append(("memnt", cterm, next(e_nt), data))
-                if used("ret", j):
+                if used("ret", j, fn):
                     ins.append(("ret", data))
                     ms.append(("ret", cterm, next(e_ret) + "|" + lenient, data))
                     if e_rd is not None:
@@ -418,7 +423,7 @@ def run(ctx):
                         ms.append(("retd", cterm, next(e_rd), data))
                 # constructor arguments live at an unmodelled base inside the init code: a word >= 2^255 used as an
                 # offset wraps into init-code bytes there (into zeros in the base-0 model), so such inputs are skipped
-                if used("ctor", j) and not any(data[i] >= 0x80 for i in range(0, len(data), 32)):
+                if used("ctor", j, fn) and not any(data[i] >= 0x80 for i in range(0, len(data), 32)):
                     ins.append(("ctor", data))
                     ms.append(("ctor", cterm, lenient, data))
             # returndata with stale valid-looking call buffer: plain, default_return_value, skip_contract_check, raw_call
